@@ -7,8 +7,8 @@ from props import xpath_common as X
 
 FIELDS = ["id", "k1", "f", "a"]
 BIG = 9007199254740993      # 2**53 + 1: not representable as a float
-VALS = ["1", "2", "x", "B", "a b", 1, 2, 1.5, "xy", "10", BIG, BIG - 1]
-LITS = ["1", "2", "x", "B", "a b", "xy", "1.5", "zz", "10", "0", str(BIG), str(BIG - 1)]
+VALS = ["1", "2", "x", "B", "a b", 1, 2, 1.5, "xy", "10", BIG, BIG - 1, "m=f", "a~b", "m=f~x"]
+LITS = ["1", "2", "x", "B", "a b", "xy", "1.5", "zz", "10", "0", str(BIG), str(BIG - 1), "m=f", "a~b"]
 
 
 def gen_recs(rng, n=None):
@@ -55,6 +55,8 @@ class C06(Prop):
     streams = {"lookup": X.LOOKUP_STREAM}
     classifiers = {
         "c06_chained": lambda case, obs, failure: case["input"].get("form") == "chained",
+        "c06_tilde_in_eq_literal": lambda case, obs, failure: case["input"].get("form") in ("eq", "eqq", "text")
+        and "~" in case["input"].get("v", ""),
     }
 
     def valid(self, case):
